@@ -705,7 +705,7 @@ func (c *Check) ruleReadIsFresh(rule string, a *repoAnchors) {
 	collect(fn, map[*types.Var]bool{a.store: true})
 	// the by-height getters answer from read() or from the newest file held in lastHeaders; a further
 	// field they can answer from (a memo of the last file parsed) is a cache as well
-	for _, k := range []string{"storage.(*BlockRepository).getHash", "storage.(*BlockRepository).getTime", "storage.(*BlockRepository).getHeader"} {
+	for _, k := range []string{"storage.(*BlockRepository).getHash", "storage.(*BlockRepository).getTime", "storage.(*BlockRepository).getHeader", "storage.(*BlockRepository).LastHash"} {
 		if g := c.P.Fn(k); g != nil && g.Blocks != nil {
 			collect(g, map[*types.Var]bool{a.store: true, a.lastHeaders: true, a.height: true})
 		}
@@ -722,6 +722,12 @@ func (c *Check) ruleReadIsFresh(rule string, a *repoAnchors) {
 			rewrites := false
 			for _, s := range sitesIn(m) {
 				if s.CC.IsInvoke() && (s.CC.Method.Name() == "Remove" || s.CC.Method.Name() == "Write") && c.P.Key(m) != "storage.(*BlockRepository).save" {
+					rewrites = true
+				}
+			}
+			// ... or replaces the newest file held in memory (Load, Add, Revert)
+			for _, st := range storesToField(m, a.lastHeaders) {
+				if fa, ok := st.Addr.(*ssa.FieldAddr); ok && !isFreshObject(fa) {
 					rewrites = true
 				}
 			}
